@@ -39,7 +39,9 @@ APD_SETTERS = [
     (A, "APDCharacteristics", "quantum_efficiency", "_quantum_efficiency", 0.0, 1.0, False),
     (A, "APDCharacteristics", "adc_bit_resolution", "_adc_bit_resolution", 4, 64, False),
     (A, "APDCharacteristics", "full_well_capacity", "_full_well_capacity", 0.0, 1.0e7, False),
+    (A, "APDCharacteristics", "avalanche_gain", "_avalanche_gain", 1.0, 1000.0, False),
 ]
+APD_BUILD = "APDCharacteristics(roic_gain=0.8, avalanche_gain=2.0, pixel_reset_voltage=12.0)"
 
 
 def range_text(lo, hi, strict):
@@ -176,6 +178,44 @@ def _field_units():
 
 
 _field_units()
+
+
+def _apd_setter_units():
+    """The APD characteristics' own setters (same documented ranges; the avalanche gain 1..1000). The dependent quantities
+    the gain setter recomputes (bias, common voltage) come from empirical formulas and are outside this obligation."""
+    for (path, cls, name, attr, lo, hi, strict) in APD_SETTERS:
+        def setter_unit(u: Unit, path=path, cls=cls, name=name, attr=attr, lo=lo, hi=hi, strict=strict):
+            fi = u.fn(f"{path}::{cls}.{name}.setter")
+            ci = u.cls(f"{path}::{cls}")
+            cfg = Cfg("fp")
+            for q in ("gain_to_bias_saphira", "bias_to_gain_saphira"):
+                cfg.contracts[f"{path}::{cls}.{q}"] = Contract(f"{path}::{cls}.{q}", lambda ex, args, kwargs, fr: VFloat(ex.st.fresh_fp("saphira")), "empirical conversion formula (outside)")
+            normal = 0
+            for tag in SCALAR_TAGS:
+                if tag in ("none", "str"):
+                    continue
+                val = sym_scalar("value", tag)
+                old = VFloat(z3.FP("old_value", F64))
+
+                def setup(ex, val=val, old=old):
+                    obj = ex.st.alloc(HObj(ci, {attr: old, "_pixel_reset_voltage": VFloat(z3.FP("prv", F64)), "_common_voltage": VFloat(z3.FP("cv", F64)),
+                                                "_avalanche_bias": VFloat(z3.FP("bias", F64))}))
+                    ex.self_ref = obj
+                    return [obj, val], {}
+                for p in u.paths(fi, setup, cfg, label=f"{cls}.{name}.setter[{tag}]"):
+                    stored = p.field(p.ex.self_ref, attr)
+                    w = {"value": term_of(val), "tag": tag}
+                    rp = setter_replay("pyxel.detectors", cls, name, attr, lo, hi, strict, APD_BUILD)
+                    if p.kind == "return":
+                        normal += 1
+                        u.oblige(p, f"setter.valid[{cls}.{name}:{tag}]", zb(in_range(stored, lo, hi, strict)), w, rp)
+                    else:
+                        u.oblige(p, f"setter.atomic[{cls}.{name}:{tag}]", stored is old, w, rp)
+            u.cover(f"setter.cover[{cls}.{name}]", [1] * normal, lambda _: True)
+        unit("C12", f"setter[{cls}.{name}]")(setter_unit)
+
+
+_apd_setter_units()
 
 
 # ---- exactly one running mode and one detector -----------------------------------------------------------------------
